@@ -48,6 +48,12 @@ func (t *Dense) T(axes ...int) (err error) {
 
 		// cool beans. No funny reversals. We'd have to actually do transpose then
 		t.Transpose()
+
+		// the data has moved and the strides are the default ones again: the transform computed above
+		// permuted the stale strides of the previous lazy transpose, so compute it afresh
+		if transform, axes, err = t.AP.T(axes...); err != nil {
+			return handleNoOp(err)
+		}
 	}
 
 	// swap out the old and the new
